@@ -372,6 +372,9 @@ func genCases(o hx.Opts, r *hx.Rand) []kase {
 		}
 	}
 
+	// H. histories: interp.New once, Execute 1..3 times (see hist.go)
+	ks = append(ks, genHistories(o, r)...)
+
 	// G. random
 	n := o.N
 	if n == 0 {
@@ -448,4 +451,177 @@ func min(a, b int) int {
 		return a
 	}
 	return b
+}
+
+// invalidEntries: a function value named name for every documented way of being invalid
+func invalidEntries(name string, r *hx.Rand) []fspec {
+	var es []fspec
+	for _, it := range invalidTypes() {
+		es = append(es,
+			mkFunc(name, []tspec{it}, false, nil, r, -1),
+			mkFunc(name, []tspec{plain("i"), it}, false, []tspec{plain("i")}, r, -1),
+			mkFunc(name, []tspec{sliceOf(it)}, true, nil, r, -1),
+			mkFunc(name, nil, false, []tspec{it}, r, -1),
+			mkFunc(name, nil, false, []tspec{it, plain("e")}, r, -1))
+	}
+	es = append(es,
+		mkFunc(name, nil, false, []tspec{plain("i"), plain("i")}, r, -1),
+		mkFunc(name, nil, false, []tspec{plain("i"), tspec{Wire: "o", Label: "errptr"}}, r, -1),
+		mkFunc(name, nil, false, []tspec{plain("i"), plain("s"), plain("e")}, r, -1),
+		fspec{Name: name, Kind: "nil"}, fspec{Name: name, Kind: "nonfunc"})
+	return es
+}
+
+func histArgs(r *hx.Rand, n int) []aval {
+	var as []aval
+	for i := 0; i < n; i++ {
+		for {
+			a := randArg(r, "run")
+			if a.Typ != 3 || fieldSafe(a.S) {
+				as = append(as, a)
+				break
+			}
+		}
+	}
+	return as
+}
+
+func repeatNil(k int) [][]fspec { return make([][]fspec, k) }
+
+func genHistories(o hx.Opts, r *hx.Rand) []kase {
+	var ks []kase
+	add := func(P []fspec, awk bool, args []aval, maps [][]fspec) {
+		ks = append(ks, kase{Route: "hist", Funcs: P, AwkDef: awk, Args: args, ConvFmt: "%.6g", Maps: maps})
+	}
+	// the valid part of the map: the called function "m" and two others sorting before and after it
+	validMap := func() []fspec {
+		np := r.Intn(3)
+		var ps []tspec
+		for i := 0; i < np; i++ {
+			ps = append(ps, plain(r.Pick(plainKinds)))
+		}
+		variadic := np > 0 && r.Intn(4) == 0
+		if variadic {
+			ps[np-1] = sliceOf(ps[np-1])
+		}
+		var rs []tspec
+		id := -1
+		switch r.Intn(4) {
+		case 1:
+			rs = []tspec{plain(r.Pick(plainKinds))}
+		case 2:
+			rs = []tspec{plain(r.Pick(plainKinds)), plain("e")}
+		case 3:
+			rs = []tspec{plain(r.Pick(plainKinds)), plain("e")}
+			if r.Intn(3) == 0 {
+				id = r.Intn(len(errPool))
+			}
+		}
+		return []fspec{mkFunc("m", ps, variadic, rs, r, id), validDistractor(r, "a"), validDistractor(r, "z")}
+	}
+	argsFor := func(P []fspec) []aval {
+		n := r.Intn(len(P[0].Params) + 1)
+		if P[0].Variadic {
+			n = r.Intn(4)
+		}
+		return histArgs(r, n)
+	}
+	positions := []string{"A0", "h", "zz"} // before every helper / between a and m / after everything
+
+	// (a) the same map every time; invalid in every documented way at every sort position
+	for _, pos := range positions {
+		for _, bad := range invalidEntries(pos, r) {
+			for k := 1; k <= 3; k++ {
+				P := append(validMap(), bad)
+				add(P, false, argsFor(P), repeatNil(k))
+			}
+		}
+	}
+	for _, kw := range keywordNames {
+		for k := 1; k <= 3; k++ {
+			P := append(validMap(), mkFunc(kw, []tspec{plain("i")}, false, []tspec{plain("i")}, r, -1))
+			add(P, false, argsFor(P), repeatNil(k))
+		}
+	}
+	// the invalid function is the one the program calls (a func, so the parser lets it through)
+	for _, bad := range invalidEntries("m", r) {
+		if bad.Kind != "func" {
+			continue
+		}
+		P := append([]fspec{bad}, validDistractor(r, "a"), validDistractor(r, "z"))
+		add(P, false, nil, repeatNil(2+r.Intn(2)))
+	}
+	// (a) valid maps: every set-up runs and converts as documented
+	nValid := 400
+	if o.Tier == "thorough" {
+		nValid = 8000
+	}
+	for i := 0; i < nValid; i++ {
+		P := validMap()
+		add(P, i%40 == 0, argsFor(P), repeatNil(2+r.Intn(2)))
+	}
+	for _, k := range plainKinds {
+		for i := 0; i < 6; i++ {
+			P := []fspec{mkFunc("m", []tspec{plain(k)}, false, []tspec{plain(k)}, r, -1), validDistractor(r, "b")}
+			add(P, false, histArgs(r, 1), repeatNil(3))
+		}
+	}
+	// an empty / helper-only history (the empty table is not nil)
+	add([]fspec{mkFunc("m", nil, false, nil, r, -1)}, false, nil, repeatNil(3))
+
+	// (b) a different map on a later (or earlier) call
+	for rep := 0; rep < 3; rep++ {
+		for _, pos := range positions {
+			for _, bad := range invalidEntries(pos, r) {
+				if rep > 0 && r.Intn(4) != 0 {
+					continue
+				}
+				P := validMap()
+				M := append(append([]fspec{}, P...), bad)
+				args := argsFor(P)
+				switch rep {
+				case 0:
+					add(P, false, args, [][]fspec{M, nil})         // invalid -> valid
+					add(P, false, args, [][]fspec{nil, M})         // valid -> invalid
+				case 1:
+					add(P, false, args, [][]fspec{M, M, nil})      // invalid twice -> valid
+				default:
+					add(P, false, args, [][]fspec{nil, M, nil})    // valid -> invalid -> valid
+				}
+			}
+		}
+	}
+	for _, bad := range invalidEntries("m", r) {
+		// the called function itself replaced by an invalid one on one call
+		P := validMap()
+		M := append([]fspec{bad}, P[1:]...)
+		args := argsFor(P)
+		add(P, false, args, [][]fspec{M, nil})
+		add(P, false, args, [][]fspec{nil, M, nil})
+	}
+	for i := 0; i < 120; i++ {
+		P := validMap()
+		args := argsFor(P)
+		// same names and signatures, other function values (other results)
+		P2 := append([]fspec{}, P...)
+		P2[0] = mkFunc("m", P[0].Params, P[0].Variadic, P[0].Results, r, -1)
+		add(P, false, args, [][]fspec{nil, P2})
+		add(P, false, args, [][]fspec{P2, nil})
+		// more functions (a name sorting last), fewer functions (the last one missing)
+		more := append(append([]fspec{}, P...), validDistractor(r, "zz9"))
+		fewer := append([]fspec{}, P[:2]...)
+		add(P, false, args, [][]fspec{more, nil})
+		add(P, false, args, [][]fspec{nil, more, nil})
+		add(P, false, args, [][]fspec{fewer, nil})
+		add(P, false, args, [][]fspec{nil, fewer})
+		if i%6 == 0 {
+			// misuse that shifts the indexes (a function sorting before the called one is missing,
+			// or the map is empty): correspondence only
+			shifted := []fspec{P[0], P[2]}
+			add(P, false, args, [][]fspec{shifted, nil})
+			add(P, false, args, [][]fspec{{}, nil})
+			add(P, false, args, [][]fspec{nil, {}})
+		}
+	}
+	return ks
 }
